@@ -135,7 +135,8 @@ def c01_function(t0: int, t1: int, d0: int, r: int, tp: int, nargs: int, nsdepth
     """
     t0, d0 = pick(t0, 0, NTY), pick(d0, 0, ND)
     if THOROUGH:
-        t1, r, tp, nargs, nsdepth = pick(t1, 0, NTY), pick(r, 0, NR), pick(tp, 0, NTP), pick(nargs, 0, 4), pick(nsdepth, 0, 4)
+        t1 = pick(t1, 0, NTY)
+        r, tp, nargs, nsdepth = (t0 + d0 + t1) % NR, (t0 + 2 * d0 + t1) % NTP, 1 + (t0 + d0 + t1) % 3, (t0 + d0) % 4
     else:
         t1, r, tp, nargs, nsdepth = (t0 * 5 + d0) % NTY, (t0 + d0) % NR, (t0 + 2 * d0) % NTP, 1 + (t0 + d0) % 3, (t0 + d0) % 4
     with concrete():
@@ -231,7 +232,8 @@ def c01_class(k1: int, k2: int, t0: int, d0: int, r: int, base: int, virt: int, 
     """
     k1, k2 = pick(k1, 0, NMK), pick(k2, 0, NMK)
     if THOROUGH:
-        t0, d0, base = pick(t0, 0, NTY), pick(d0, 0, ND), pick(base, 0, NB)
+        t0 = pick(t0, 0, NTY)
+        d0, base = (k1 + 2 * k2 + t0) % ND, (k1 + k2 + t0) % NB
     else:
         t0, d0, base = (k1 * 3 + k2) % NTY, (k1 + 2 * k2) % ND, (k1 + k2) % NB
     r, virt, tp, nsdepth = (t0 + k1) % NR, (k1 + k2) % 2, (k1 + d0) % NTP, (k2 + t0) % 3
